@@ -52,4 +52,27 @@ FollowIsChunks ==
   /\ FollowCol(keys, order, size, ColFirst, MaxLen + 1) = Want
   /\ FollowOff(L, size, OffFirst, MaxLen + 1) = Want
   /\ FoldLeft(LAMBDA acc, p : acc \o p, <<>>, Want) = L
+
+\* a cursor request may carry ANOTHER page size: from the first page's next cursor, walking forward with any size s2 still
+\* enumerates the rest exactly once in order; walking back from the last such page ends on a page without previous that
+\* starts at the first key
+Items(ps) == FoldLeft(LAMBDA acc, p : acc \o p.items, <<>>, ps)
+ResizeEnumerates ==
+  \A s2 \in 1..MaxSize :
+     LET fc == ColPage(keys, order, size, ColFirst)
+         fo == OffPage(L, size, OffFirst)
+     IN /\ (IsCursor(fc.next) =>
+              LET fw == ColWalk(keys, order, s2, fc.next, "next", MaxLen + 1)
+                  lastp == fw[Len(fw)]
+              IN /\ fc.items \o Items(fw) = L
+                 /\ (IsCursor(lastp.prev) =>
+                       LET bw == ColWalk(keys, order, s2, lastp.prev, "prev", MaxLen + 1)
+                       IN ~IsCursor(bw[Len(bw)].prev) /\ bw[Len(bw)].items[1] = L[1]))
+        /\ (IsCursor(fo.next) =>
+              LET fw == OffWalk(L, s2, fo.next, "next", MaxLen + 1)
+                  lastp == fw[Len(fw)]
+              IN /\ fo.items \o Items(fw) = L
+                 /\ (IsCursor(lastp.prev) =>
+                       LET bw == OffWalk(L, s2, lastp.prev, "prev", MaxLen + 1)
+                       IN ~IsCursor(bw[Len(bw)].prev) /\ bw[Len(bw)].items[1] = L[1]))
 =============================================================================
